@@ -324,6 +324,13 @@ def visit(visitor, obj, attr, cff):
 # ItemVariationStore
 
 
+@ScalerVisitor.register(ttLib.getTableClass("avar"))
+def visit(visitor, avar):
+    # The deltas of an avar version 2 variation store are normalized axis
+    # coordinates, not font units: leave the whole table alone.
+    return False
+
+
 @ScalerVisitor.register(otTables.VarData)
 def visit(visitor, varData):
     for item in varData.Item:
